@@ -48,6 +48,20 @@ notes.update({
  "C14-r2": ("VerifC05AssignStep (C05.assign.rejected-iff-rule-applies)", "the harness caught it under check C05; C14 now runs it too"),
 })
 
+
+notes.update({
+ "C01-r3": ("package consumer VerifC01ConsumerEndBlock (engine asked to remove a key it never had)", "missed by the first version: the consumer harness replayed the end-block flush by hand instead of calling the module's EndBlock; a harness driving AppModule.EndBlock was added"),
+ "C02-r3": ("VerifC03TopNStep (C03.step.threshold-is-computed-over-the-active-set)", "the harness caught it under check C03; C02 now runs it too"),
+ "C05-r3": ("VerifC05AssignStep (C05.assign.rejected-iff-rule-applies: own recently replaced key)", ""),
+ "C07-r3": ("VerifC20UpdateQueued (C20.update.different-request-is-queued)", "missed by the first version: the harness's oracle called the repository's own compareInfractionParameters, so it changed together with the code under test; the oracle now has its own equality, and C07 runs the harness"),
+ "C08-r3": ("consumer VerifC08ConsumerReports (C08.consumer.power-update-is-not-an-acknowledgement)", "missed by the first version (no validator-set change was applied between report and acknowledgement); step added (predicted from the agent's report), then confirmed"),
+ "C10-r3": ("VerifC10UpdatePhase (C10.inv.initialized-scheduled-exactly-once-at-its-spawn-time)", "caught as built"),
+ "C11-r3": ("VerifC11Stop (C11.stop.nothing-sent-to-stopped-consumer)", ""),
+ "C14-r3": ("VerifC14ValidatorMsgs msg=0 (C14.val.optin-accepted-only-from-the-validators-operator)", "caught as built"),
+ "C16-r3": ("package provider VerifC16Middleware (multi-hop voucher coming back)", "the harness had only single-hop returning denoms; a forwarded voucher was added (predicted from the agent's report), then confirmed"),
+ "C19-r3": ("VerifC20UpdateQueued (C20.update.cancelled-request-not-scheduled-at-due-time / older-pending-entry-replaced)", "the harness caught it under check C20; C19 now runs the queue harnesses too"),
+})
+
 rows = []
 sd = os.path.join(V, "seeded")
 for d in sorted(os.listdir(sd)):
